@@ -512,8 +512,8 @@ type chunkOut struct {
 
 // The scripts of this workload finish in milliseconds (the longest, an import cycle on the unchanged
 // tree, performs about a thousand module loads). The watchdog is not an oracle: a case that hits it is
-// run again with three times the budget and only a repeatable hang is reported.
-const evalTimeout = 5 * time.Second
+// run again with six times the budget and only a repeatable hang is reported.
+const evalTimeout = 10 * time.Second
 
 func runSub(s *Sub, lt string, co *chunkOut) {
 	o := evalSub(s, lt, evalTimeout)
@@ -524,7 +524,7 @@ func runSub(s *Sub, lt string, co *chunkOut) {
 			// a case of the same kind already hung twice in this process: do not spend the budget again
 			co.Viols = append(co.Viols, Viol{Sig: sig, Detail: o.Hang + " (a hang of this kind of case was confirmed by a re-run earlier in this worker)\n" + describe(s, o), Sub: s})
 		} else {
-			o2 := evalSub(s, lt, 3*evalTimeout)
+			o2 := evalSub(s, lt, 6*evalTimeout)
 			co.Evals++
 			if o2.Hang != "" {
 				if co.hangs == nil {
